@@ -113,6 +113,19 @@ Close(mode, until, r) ==
   /\ closed' = mode /\ closeUntil' = until /\ GStep("Close", "ok", r)
   /\ UNCHANGED <<mvars, issued, retired, peerLimit, now, lastSweep>>
 
+\* a short-header packet for ID seq (999: an ID that was never ours) reached the transport; to: "conn" | "closed" | "reset" | "dropped"
+Packet(seq, to, r) ==
+  /\ routed' = r
+  /\ step' = [NoStep EXCEPT !.kind = "Packet", !.seq = seq, !.res = to]
+  /\ UNCHANGED <<mvars, issued, retired, peerLimit, now, lastSweep, closed, closeUntil>>
+\* packets reach the connection for precisely its issued and not yet expired IDs; never after it closed; never for a foreign ID
+RoutedPrecisely ==
+  step.kind = "Packet" =>
+     /\ (step.res = "conn" => closed = "" /\ step.seq \in issued /\ (step.seq \in Unretired \/ step.seq \in DOMAIN routed))
+     /\ ((closed = "" /\ step.seq \in Unretired) => step.res = "conn")
+     /\ ((closed = "" /\ step.seq \in DOMAIN retired /\ retired[step.seq] > lastSweep) => step.res = "conn")
+     /\ (step.seq \notin issued => step.res \in {"reset", "dropped"})
+
 \* never more unretired IDs issued than the peer allows (the handshake ID counts)
 IssuedWithinPeerLimit == Cardinality(Unretired \ {-1}) <= Max(1, peerLimit)
 \* while open: packets are routed to the connection for precisely its issued and not yet expired IDs
